@@ -517,15 +517,49 @@ func compareStrings(left, right, operator string) (bool, error) {
 // Classic two-pointer backtracking algorithm: O(n*m) worst case, no exponential
 // blow-up on adversarial patterns.
 func matchLikePattern(text, pattern string) bool {
+	if !isASCIIString(text) || !isASCIIString(pattern) {
+		return matchLikePatternRunes([]rune(text), []rune(pattern))
+	}
 	ti, pi := 0, 0
 	starIdx, matchIdx := -1, 0
 	for ti < len(text) {
-		if pi < len(pattern) && (pattern[pi] == '_' || pattern[pi] == text[ti]) {
-			ti++
-			pi++
-		} else if pi < len(pattern) && pattern[pi] == '%' {
+		// '%' must be tested before the literal comparison: a '%' in the text would
+		// otherwise consume the pattern's wildcard as a literal character.
+		if pi < len(pattern) && pattern[pi] == '%' {
 			starIdx = pi
 			matchIdx = ti
+			pi++
+		} else if pi < len(pattern) && (pattern[pi] == '_' || pattern[pi] == text[ti]) {
+			ti++
+			pi++
+		} else if starIdx != -1 {
+			pi = starIdx + 1
+			matchIdx++
+			ti = matchIdx
+		} else {
+			return false
+		}
+	}
+	for pi < len(pattern) && pattern[pi] == '%' {
+		pi++
+	}
+	return pi == len(pattern)
+}
+
+// matchLikePatternRunes is the same algorithm over characters (runes) for non-ASCII input, so that
+// _ stands for one character rather than one byte.
+func matchLikePatternRunes(text, pattern []rune) bool {
+	ti, pi := 0, 0
+	starIdx, matchIdx := -1, 0
+	for ti < len(text) {
+		// '%' must be tested before the literal comparison: a '%' in the text would
+		// otherwise consume the pattern's wildcard as a literal character.
+		if pi < len(pattern) && pattern[pi] == '%' {
+			starIdx = pi
+			matchIdx = ti
+			pi++
+		} else if pi < len(pattern) && (pattern[pi] == '_' || pattern[pi] == text[ti]) {
+			ti++
 			pi++
 		} else if starIdx != -1 {
 			pi = starIdx + 1
@@ -953,4 +987,14 @@ func evaluateIsOperator(node *ExprNode, data map[string]any) (any, error) {
 	}
 
 	return nil, fmt.Errorf("unsupported IS operator: %s", operator)
+}
+
+// isASCIIString reports whether s contains only single-byte characters.
+func isASCIIString(s string) bool {
+	for i := 0; i < len(s); i++ {
+		if s[i] >= 0x80 {
+			return false
+		}
+	}
+	return true
 }
